@@ -10,6 +10,8 @@ pub mod c07;
 pub mod c08;
 pub mod c09;
 pub mod c12;
+pub mod c15;
+pub mod memfam;
 pub mod ench;
 pub mod c10;
 pub mod dech;
@@ -21,6 +23,7 @@ pub fn run(ctx: &Ctx) -> i32 {
         "C03" => c03::run(ctx),
         "C04" => c04::run(ctx),
         "C12" => c12::run(ctx),
+        "C15" => c15::run(ctx),
         "C07" => c07::run(ctx),
         "C08" => c08::run(ctx),
         "C09" => c09::run(ctx),
@@ -56,6 +59,7 @@ pub fn replay(path: &str) -> i32 {
         "C03" => c03::replay(&case),
         "C04" => c04::replay(&case),
         "C12" => c12::replay(&case),
+        "C15" => c15::replay(&case),
         "C07" => c07::replay(&case),
         "C08" => c08::replay(&case),
         "C09" => c09::replay(&case),
